@@ -199,6 +199,8 @@ def enumerate_candidates(p, ctx=None, ops=None, rich=True):
         if isinstance(s, (C.AssignCursor, C.ReduceCursor)):
             add("split_write", L, lambda s=s: S.split_write(p, s))
             add("lift_reduce_constant", L, lambda s=s: S.lift_reduce_constant(p, s.expand(1, 0)))
+            if isinstance(s, C.AssignCursor):  # the documented form: the zero assignment followed by the reduction loop
+                add("lift_reduce_constant", L + "+1", lambda s=s: S.lift_reduce_constant(p, s.expand(0, 1)))
             if isinstance(s, C.AssignCursor):
                 add("fold_into_reduce", L, lambda s=s: S.fold_into_reduce(p, s))
             # expression primitives
